@@ -67,8 +67,10 @@ type Gen struct {
 	readSeen  map[string]bool
 	named     map[Sort][]namedTerm
 	namedSeen map[string]bool
+	coverPos  []string // source positions of the returns in covers
 	packedOf  map[string]string
-	sliceDataOf map[string]*SVal // opaque pointer returned by unsafe.SliceData -> the slice it came from // array term -> its packed bit-vector, where known
+	sliceDataOf map[string]*SVal
+	strLog      []strRec // string(b[i:j]) conversions seen so far (for frame instances at byte stores) // opaque pointer returned by unsafe.SliceData -> the slice it came from // array term -> its packed bit-vector, where known
 	verWM     map[string]string // heap version -> allocation watermark when it was created
 	axiomSeen  map[string]bool
 	initDone   map[string]bool
@@ -1056,7 +1058,7 @@ func (g *Gen) fieldAddr(p *SVal, structT types.Type, i int) *SVal {
 	if isAggregate(ft) {
 		return &SVal{T: pt, K: KPtr, Term: ref}
 	}
-	return &SVal{T: pt, K: KPtr, Term: ref, Prov: &Prov{Kind: 1, Fam: fmt.Sprintf("F|%s|%d", typeKey(structT), i), Idx: p.Term}}
+	return &SVal{T: pt, K: KPtr, Term: ref, Prov: &Prov{Kind: 1, Fam: fmt.Sprintf("F|%s|%d", structMemKey(structT), i), Idx: p.Term}}
 }
 
 // elemAddr computes the address of element idx (already offset-adjusted) of an
@@ -1177,7 +1179,16 @@ func (g *Gen) store(st *State, p *SVal, t types.Type, v *SVal) {
 	case 2:
 		srt := g.elemHeapSort(t)
 		h := g.heapGet(st, pr.Fam, srt)
-		g.heapSet(st, pr.Fam, srt, sStore(h, pr.Base, sStore(sSel(h, pr.Base), pr.Idx, v.Term)))
+		nh := sStore(h, pr.Base, sStore(sSel(h, pr.Base), pr.Idx, v.Term))
+		g.heapSet(st, pr.Fam, srt, nh)
+		// frame instances for the strings converted from byte slices so far: a byte written outside the
+		// converted range leaves the string as it was
+		if pr.Fam == elemFam(tByte) && g.inQuant == 0 {
+			for _, r := range g.strLog {
+				out := sOr(sNot(sEq(r.base, pr.Base)), sApp("bvslt", pr.Idx, r.off), sApp("bvsge", pr.Idx, sApp("bvadd", r.off, r.n)))
+				g.assume("true", sImp(out, sEq(sApp("str_of_bytes", sSel(nh, r.base), r.off, r.n), sApp("str_of_bytes", sSel(h, r.base), r.off, r.n))))
+			}
+		}
 		return
 	case 3:
 		ls := g.W.leaves(t)
@@ -1315,4 +1326,18 @@ func (g *Gen) advanceClock(reach string, pre, post *State) {
 	g.heapSet(post, clockSec, SBV64, ns)
 	g.heapSet(post, clockNsec, SBV64, nn)
 	g.assume(reach, timeLE(os, on, ns, nn))
+}
+
+type strRec struct{ base, off, n string }
+
+func (g *Gen) logStrOfBytes(base, off, n string) {
+	if g.inQuant > 0 || len(g.strLog) >= 16 {
+		return
+	}
+	for _, r := range g.strLog {
+		if r.base == base && r.off == off && r.n == n {
+			return
+		}
+	}
+	g.strLog = append(g.strLog, strRec{base, off, n})
 }
